@@ -525,3 +525,21 @@ Definition src_push_order_ok : bool :=
   list_eqb str_eqb calls_store_push [b "s.storage.Push"; b "s.tag"] &&
   list_eqb str_eqb calls_storage_push [b "s.ingest"; b "os.Rename"] &&
   list_eqb str_eqb calls_ingest [b "os.CreateTemp"; b "ioutil.CopyBuffer"; b "os.Chmod"].
+
+(* lock discipline assumed by the two models (translator kind callseq with mark_defer):
+   Push / Tag / Untag / SaveIndex hold the READ lock of Store.sync from their first statement to
+   their return (so they interleave with one another: Model/OciCrashConc.v), Delete and GC hold
+   the WRITE lock (so they run alone: sequential operations between concurrent batches);
+   saveIndex holds indexLock from before the resolver snapshot until the file is renamed into
+   place (TLockSnap .. TPublishIndex .. TUnlock is one critical section); the helpers tag and
+   delete take no lock of their own (they run under their caller's). *)
+Definition src_locks_ok : bool :=
+  list_eqb str_eqb locks_push [b "s.sync.RLock"; b "defer s.sync.RUnlock"; b "s.storage.Push"; b "s.tag"] &&
+  list_eqb str_eqb locks_tag [b "s.sync.RLock"; b "defer s.sync.RUnlock"; b "s.storage.Exists"; b "s.tag"] &&
+  list_eqb str_eqb locks_untag [b "s.sync.RLock"; b "defer s.sync.RUnlock"; b "s.tagResolver.Untag"; b "s.saveIndex"] &&
+  list_eqb str_eqb locks_saveindex_api [b "s.sync.RLock"; b "defer s.sync.RUnlock"; b "s.saveIndex"] &&
+  list_eqb str_eqb locks_delete [b "s.sync.Lock"; b "defer s.sync.Unlock"; b "s.delete"] &&
+  list_eqb str_eqb locks_gc [b "s.sync.Lock"; b "defer s.sync.Unlock"; b "s.gcIndex"; b "s.saveIndex"; b "os.Remove"] &&
+  list_eqb str_eqb locks_saveindex [b "s.indexLock.Lock"; b "defer s.indexLock.Unlock"; b "s.tagResolver.Map"; b "s.writeIndexFile"] &&
+  list_eqb str_eqb locks_tag_inner [b "s.tagResolver.Tag"; b "s.tagResolver.Tag"; b "s.saveIndex"] &&
+  list_eqb str_eqb locks_delete_inner [b "s.saveIndex"; b "s.storage.Delete"].
